@@ -322,7 +322,10 @@ impl VxExtend<Bytes> for Vec<u8> {
     #[verifier::external_body] fn vx_extend(&mut self, b: Bytes) { self.extend(b.0) }
 }
 // ---- p256 signing (assumed): the signature is a function of the COSE private key and the message
+// the ECDSA signature of `msg` under `key` in the encoding of the U2F raw-message format and of WebAuthn (ANSI X9.62 /
+// ASN.1 DER); `spec_sign_fixed` is the same signature in the fixed-width r || s serialisation of the p256 crate
 pub uninterp spec fn spec_sign(key: CoseKey, msg: Seq<u8>) -> Seq<u8>;
+pub uninterp spec fn spec_sign_fixed(key: CoseKey, msg: Seq<u8>) -> Seq<u8>;
 // HMAC-SHA-256 (assumed)
 pub uninterp spec fn spec_hmac(key: Seq<u8>, data: Seq<u8>) -> Seq<u8>;
 pub uninterp spec fn spec_secret_of(key: CoseKey) -> SecretKey;
@@ -338,7 +341,7 @@ pub mod p256 {
     pub mod ecdsa {
     use vstd::prelude::*;
     use crate::*;
-    pub struct Signature { pub der: Ghost<Seq<u8>> }
+    pub struct Signature { pub der: Ghost<Seq<u8>>, pub fixed: Ghost<Seq<u8>> }
     pub struct DerSignature { pub der: Ghost<Seq<u8>> }
     pub struct DerBytes { pub der: Ghost<Seq<u8>> }
     impl Signature { #[verifier::external_body] pub fn to_der(&self) -> (r: DerSignature) ensures r.der@ == self.der@ { unimplemented!() } }
@@ -353,7 +356,7 @@ pub mod p256 {
     impl SigningKey {
         #[verifier::external_body]
         pub fn sign(&self, msg: &Vec<u8>) -> (r: Signature)
-            ensures r.der@ == spec_sign(spec_cose_of_secret(self.sk), msg@)
+            ensures r.der@ == spec_sign(spec_cose_of_secret(self.sk), msg@), r.fixed@ == spec_sign_fixed(spec_cose_of_secret(self.sk), msg@)
         { unimplemented!() }
     }
 } }
@@ -724,7 +727,8 @@ impl passkey_types::Passkey {
         ensures r.0.key == *private_key, r.0.credential_id@ == key_handle@, r.0.rp_id@ == spec_app_id(request.application@), r.2.id@ == spec_app_id(request.application@)
     { unimplemented!() }
 }
-impl p256::ecdsa::Signature { #[verifier::external_body] pub fn to_vec(&self) -> (r: Vec<u8>) ensures r@ == self.der@ { unimplemented!() } }
+// ecdsa::Signature::to_vec / to_bytes: the fixed-width r || s serialisation, not DER
+impl p256::ecdsa::Signature { #[verifier::external_body] pub fn to_vec(&self) -> (r: Vec<u8>) ensures r@ == self.fixed@ { unimplemented!() } }
 impl p256::ecdsa::DerSignature { #[verifier::external_body] pub fn as_bytes(&self) -> (r: &[u8]) ensures r@ == self.der@ { unimplemented!() } }
 pub mod u2f {
     use super::*;
